@@ -322,9 +322,85 @@ fn with_fci<R>(fci: &Fci, f: &mut dyn FnMut(&dyn FciBuilder) -> R) -> R {
     }
 }
 
-/// Calls `f` with the real builder configured as `cfg` (borrowed variants of every API).
+fn owned_route() -> bool {
+    crate::ROUTE.load(std::sync::atomic::Ordering::SeqCst) == 1
+}
+
+/// Calls `f` with the real builder configured as `cfg`: borrowed variants of every API, or -- when `crate::ROUTE` is 1 --
+/// the owned variants where the API has them (BYE reason, SDES items, RPSI data, feedback FCI builder).
 pub fn with_writer<R>(cfg: &Cfg, f: &mut dyn FnMut(&dyn RtcpPacketWriter) -> R) -> R {
     match cfg {
+        Cfg::Bye { padding, sources, reason } if owned_route() => {
+            // setters in a different order than the borrowed route, reason through the owned variant
+            let mut b = Bye::builder();
+            for s in sources {
+                b = b.add_source(*s);
+            }
+            let b = b.padding(*padding);
+            if !reason.is_empty() {
+                let b = b.reason_owned(reason.clone());
+                f(&b)
+            } else {
+                f(&b)
+            }
+        }
+        Cfg::Sdes { padding, chunks } if owned_route() => {
+            let mut b = Sdes::builder();
+            for c in chunks {
+                let mut cb = SdesChunk::builder(c.ssrc);
+                for i in &c.items {
+                    let mut ib = SdesItem::builder(i.type_, i.value.as_str());
+                    if !i.prefix.is_empty() {
+                        ib = ib.prefix(&i.prefix[..]);
+                    }
+                    cb = cb.add_item_owned(ib);
+                }
+                b = b.add_chunk(cb);
+            }
+            let b = b.padding(*padding);
+            f(&b)
+        }
+        Cfg::Fb { transport, sender, media, padding, fci } if owned_route() => {
+            macro_rules! owned {
+                ($b:expr) => {
+                    if *transport {
+                        let b = TransportFeedback::builder_owned($b).padding(*padding).media_ssrc(*media).sender_ssrc(*sender);
+                        f(&b)
+                    } else {
+                        let b = PayloadFeedback::builder_owned($b).padding(*padding).media_ssrc(*media).sender_ssrc(*sender);
+                        f(&b)
+                    }
+                };
+            }
+            match fci {
+                Fci::Nack(v) => {
+                    let mut b = Nack::builder();
+                    for s in v {
+                        b = b.add_rtp_sequence(*s);
+                    }
+                    owned!(b)
+                }
+                Fci::Fir(v) => {
+                    let mut b = Fir::builder();
+                    for (s, q) in v {
+                        b = b.add_ssrc(*s, *q);
+                    }
+                    owned!(b)
+                }
+                Fci::Sli(v) => {
+                    let mut b = Sli::builder();
+                    for (a, c, p) in v {
+                        b = b.add_lost_macroblock(*a, *c, *p);
+                    }
+                    owned!(b)
+                }
+                Fci::Rpsi { pt, data, overrun } => {
+                    let b = Rpsi::builder().payload_type(*pt).native_data_owned(data.clone(), *overrun);
+                    owned!(b)
+                }
+                Fci::Pli => owned!(Pli::builder()),
+            }
+        }
         Cfg::App { ssrc, padding, subtype, name, data } => {
             let b = App::builder(*ssrc, name).padding(*padding).subtype(*subtype).data(data);
             f(&b)
